@@ -17,6 +17,7 @@ DECIDED += '; R10 every traversal of the hosts in Sim::step takes the due messag
 DECIDED += '; a partition destroys every message on the link, held ones included (shared C03-R3)'
 DECIDED += '; R11 a Config knob reaches the constructor parameter of its own name; the in-simulation and Sim-handle spellings of partition / repair reach the same operation (shared C03-R6); R4 also: ConnectGuard::drop releases on every path'
 DECIDED += '; a bounced host always starts on a fresh runtime (shared C04-R2)'
+DECIDED += '; R8 also: the capacity test is made before the enqueue; release frees both directions (shared C08-R9 as C12-R12)'
 ASSUMPTIONS = ["dropping a oneshot::Sender makes the receiver resolve with RecvError (tokio contract)"]
 
 DEQUE = "turmoil::host::ServerSocket::deque"
